@@ -155,6 +155,11 @@ func ixItem(h, rg, g, s string, extra int) val.Item {
 		it["s"] = ixV("s", s)
 	}
 	it["v"] = val.Num(fmt.Sprint(extra))
+	// a small document: two numbers in one map and two in one list (filters relate paths under ONE root to each other)
+	if extra%3 != 0 {
+		it["w"] = val.Map(map[string]val.V{"lo": val.Num(fmt.Sprint(extra % 5)), "hi": val.Num(fmt.Sprint(extra * 3 % 7))})
+		it["pl"] = val.List(val.Num(fmt.Sprint(extra%3)), val.Num(fmt.Sprint(extra%4)))
+	}
 	return it
 }
 
@@ -182,8 +187,15 @@ func ixRandomWrite(r *rand.Rand, table string, salt int) adapt.Op {
 		}
 		return adapt.Op{Kind: adapt.OpPut, Table: table, Item: ixItem(h, rg, maybe(r, ixGPool, 25), maybe(r, ixSPool, 25), salt)}
 	case 4:
+		if ixTypes["g"] == "N" && r.Intn(2) == 0 {
+			// a NUMBER index key changed - or created, on an item that had none - by ADD instead of SET
+			return mon.AddUpdate(table, key, "g", val.Num(mon.Pick(r, []string{"1", "-1", "2", "0"})))
+		}
 		return mon.SetUpdate(table, key, "g", ixV("g", mon.Pick(r, ixGPool)))
 	case 5:
+		if ixTypes["s"] == "N" && r.Intn(2) == 0 {
+			return mon.AddUpdate(table, key, "s", val.Num(mon.Pick(r, []string{"1", "-1", "2", "0"})))
+		}
 		return mon.SetUpdate(table, key, "s", ixV("s", mon.Pick(r, ixSPool)))
 	case 6:
 		return mon.RemoveUpdate(table, key, mon.Pick(r, []string{"g", "s"}))
